@@ -70,7 +70,7 @@ def run_shards(prop, tier, seed, nshards, repo, budget_s, watchdog_s, work, repl
             return {"ok": False, "error": f"watchdog {watchdog_s}s fired (inconclusive)", "shard": job["shard"]}
         if not os.path.exists(job["out"]):
             tail = open(log).read()[-1500:]
-            return {"ok": False, "error": f"worker died rc={rc}", "trace": tail, "shard": job["shard"]}
+            return {"ok": False, "error": f"worker died rc={rc}", "trace": tail, "shard": job["shard"], "signal": rc < 0}
         r = json.load(open(job["out"]))
         r["shard"] = job["shard"]
         return r
@@ -156,6 +156,8 @@ def main():
         shutil.rmtree(work, ignore_errors=True)
 
     dead = [r for r in res if not r.get("ok")]
+    crashed = [r for r in dead if r.get("signal")] if spec.get("dead_worker_is_violation") else []
+    dead = [r for r in dead if r not in crashed]
     evaluations = sum(r.get("evaluations", 0) for r in res if r.get("ok"))
     distinct = set()
     obs, mon, skipped, samples, violations, inconcl, hard = {}, {}, {}, [], [], [], []
@@ -180,6 +182,10 @@ def main():
         merge_obs(mon, extra.get("monitor_evals", {}))
         inconcl.extend(extra.get("inconclusive", []))
 
+    for r in crashed:  # the interpreter itself died inside the monitored call (native crash; faulthandler dump in the trace)
+        violations.append({"property": prop, "monitor": "completion:process-died", "seed": seed, "tier": tier, "shard": r.get("shard"),
+                           "witness": {"what": "the process running the monitored call was killed by a signal", "error": r.get("error"), "faulthandler_tail": (r.get("trace") or "")[-1200:]},
+                           "case": getattr(mod, "case_of_shard", lambda t, k: None)(tier, r.get("shard"))})
     known, fixed = load_known()
     new_v, known_hits = [], {}
     classify = getattr(mod, "classify", lambda w: None)
